@@ -698,6 +698,29 @@ pub fn boundary_doc(head: &str, unit: &str, tail: &str, pad: u8, boundary: usize
     s
 }
 
+/// Every value 00..99 of the two-digit fields of date, time and timestamp literals (months, days,
+/// hours, minutes, seconds, offset hours and minutes, pairs of adjacent fields exhaustively).
+pub fn field_sweep() -> Vec<String> {
+    let mut v = Vec::new();
+    for a in 0..100 {
+        for b in 0..100 {
+            v.push(format!("{a:02}:{b:02}:00"));
+            v.push(format!("2021-{a:02}-{b:02}"));
+            for sign in ['+', '-'] {
+                v.push(format!("2021-06-07T12:00:00{sign}{a:02}:{b:02} London"));
+            }
+        }
+        v.push(format!("12:00:{a:02}"));
+        v.push(format!("12:00:{a:02}.5"));
+        v.push(format!("2021-06-07T{a:02}:00:00Z"));
+        v.push(format!("2021-06-07T12:{a:02}:00Z UTC"));
+        v.push(format!("2021-06-07T12:00:{a:02}-04:00 New_York"));
+        v.push(format!("{:04}-02-29", 1900 + a));
+        v.push(format!("00{a:02}-01-01"));
+    }
+    v
+}
+
 pub const BOUNDARIES: &[usize] = &[1024, 4096, 8192, 16384, 65536];
 pub const FILTER_UNIT: &str = "x < 10 and d >= 2021-01-01 and r == @ref1 and t > 12:30:00 and n <= -1.5e3 and s == \"str\" and u != `u` and q->w or ";
 pub const ZINC_LIST_UNIT: &str = "1, 2021-01-01, @r \"d\", -INF, 1e5, \"s\\u00e9\", `u`, 12:00:00, 2021-01-01T00:00:00Z UTC, 2021-01-01T00:00:00-05:00 New_York, C(1,2), Bin(\"x\"), ^sym, NA, -1.5kW, ";
